@@ -16,6 +16,8 @@ go test -vet=off -count=1 ./verifdemo/... > /tmp/$ID.demo_without.log 2>&1; D0=$
 git apply /tmp/$ID.patch
 go build ./... > /tmp/$ID.build.log 2>&1; B=$?
 go test -vet=off -count=1 -run '^Test' $PKGS > /tmp/$ID.suite.log 2>&1; S=$?
+# timing-sensitive tests of the suite flake on a loaded machine: one retry
+if [ $S -ne 0 ]; then cp /tmp/$ID.suite.log /tmp/$ID.suite.first.log; go test -vet=off -count=1 -run '^Test' $PKGS > /tmp/$ID.suite.log 2>&1; S=$?; fi
 go test -vet=off -count=1 ./verifdemo/... > /tmp/$ID.demo_with.log 2>&1; D1=$?
 echo "build=$B suite=$S demo_without=$D0 demo_with=$D1"
 if [ $B -eq 0 ] && [ $S -eq 0 ] && [ $D0 -eq 0 ] && [ $D1 -ne 0 ]; then
@@ -35,6 +37,6 @@ json.dump(out,open('/verif/seeded/%s/meta.json'%i,'w'),indent=1)
 PY
   echo CONFIRMED
 else
-  tail -5 /tmp/$ID.suite.log /tmp/$ID.demo_without.log /tmp/$ID.demo_with.log
+  tail -n 5 /tmp/$ID.suite.log /tmp/$ID.demo_without.log /tmp/$ID.demo_with.log
   echo NOT-CONFIRMED
 fi
